@@ -331,6 +331,8 @@ def run_batch(profile, verif_seed, n_runs, tier, workers=None, wall_budget=None,
   workers = workers or int(os.environ.get("GSIM_WORKERS", os.cpu_count() or 4))
   t0 = time.time()
   chunk = max(1, min(8, n_runs // (workers * 4) or 1))
+  if tier == "thorough" and getattr(profile, "thorough_chunk", None):
+    chunk = profile.thorough_chunk      # slow runs: small chunks keep the tail after the budget short
   chunks = [list(range(i, min(i + chunk, start_index + n_runs)))
             for i in range(start_index, start_index + n_runs, chunk)]
   results = []
